@@ -37,7 +37,7 @@ class _mean:
     @ensures("mean_is_sum_over_weight")
     def _(a, old, result):
         w, s = old.self.weight, old.self.sum
-        return Implies(w != 0, And(Not(isnan(result)), result * w == s))
+        return Implies(w != 0, And(Not(isnan(result)), close(result * w, s)))
 
     @ensures("empty_gives_nan")
     def _(a, old, result):
@@ -58,7 +58,7 @@ class _variance:
     @ensures("population_variance")
     def _(a, old, result):
         w, s, s2 = old.self.weight, old.self.sum, old.self.sum2
-        return Implies(w > 0, And(Not(isnan(result)), result * w * w == s2 * w - s * s))
+        return Implies(w > 0, And(Not(isnan(result)), close(result * w * w, s2 * w - s * s)))
 
     @ensures("nan_without_weight")
     def _(a, old, result):
@@ -77,7 +77,7 @@ class _std:
     @ensures("std_squared_is_variance")
     def _(a, old, result):
         w, s, s2 = old.self.weight, old.self.sum, old.self.sum2
-        return Implies(And(w > 0, s2 * w - s * s >= 0), And(result >= 0, result * result * w * w == s2 * w - s * s))
+        return Implies(And(w > 0, s2 * w - s * s >= 0), And(result >= 0, close(result * result * w * w, s2 * w - s * s)))
 
     @ensures("nan_without_weight")
     def _(a, old, result):
